@@ -14,7 +14,7 @@ from __future__ import annotations
 import ast
 import hashlib
 
-from py2lean import Unsupported, find_func, strip_doc, translate_block
+from py2lean import Unsupported, find_func, lean_table, strip_doc, translate_block
 
 
 def _leading_raises(body):
@@ -680,6 +680,194 @@ def build_T15h(tree):
     return '\n\n'.join(texts), hashlib.sha256(''.join(ast.unparse(x) for x in span).encode()).hexdigest()
 
 
+# ---------------------------------------------------------------- T15i: option handling of _SR.__init__ and the forwarding subclasses
+def _lean_str(x):
+    return '"' + x.replace('\\', '\\\\').replace('"', '\\"') + '"'
+
+
+def _effects(stmts, cond, out):
+    """(kind, target, path condition, value) of every assignment / augmented assignment / deletion in a block, in program
+    order; the path condition is the conjunction of the enclosing `if` tests (negated in else branches), loops and try blocks
+    are named in it.  kind: 'name' (a local or parameter is bound) | 'attr' (an attribute is stored) | 'item' (a subscript is
+    stored)."""
+    def tgt(t, value):
+        if isinstance(t, (ast.Tuple, ast.List)):
+            for e in t.elts:
+                tgt(e, value)
+        elif isinstance(t, ast.Name):
+            out.append(('name', t.id, ' and '.join(cond) or 'True', value))
+        elif isinstance(t, ast.Attribute):
+            out.append(('attr', _norm(t), ' and '.join(cond) or 'True', value))
+        elif isinstance(t, ast.Subscript):
+            out.append(('item', _norm(t), ' and '.join(cond) or 'True', value))
+        elif isinstance(t, ast.Starred):
+            tgt(t.value, value)
+        else:
+            raise Unsupported(f'assignment target {type(t).__name__}')
+    for st in stmts:
+        if isinstance(st, ast.Assign):
+            for t in st.targets:
+                tgt(t, _norm(st.value))
+        elif isinstance(st, ast.AnnAssign):
+            if st.value is not None:
+                tgt(st.target, _norm(st.value))
+        elif isinstance(st, ast.AugAssign):
+            tgt(st.target, _norm(st.target) + ' ' + type(st.op).__name__ + ' ' + _norm(st.value))
+        elif isinstance(st, ast.Delete):
+            for t in st.targets:
+                tgt(t, '<deleted>')
+        elif isinstance(st, ast.If):
+            _effects(st.body, cond + (_norm(st.test),), out)
+            _effects(st.orelse, cond + ('not (' + _norm(st.test) + ')',), out)
+        elif isinstance(st, (ast.For, ast.While)):
+            head = ('for ' + _norm(st.target) + ' in ' + _norm(st.iter)) if isinstance(st, ast.For) else 'while ' + _norm(st.test)
+            if isinstance(st, ast.For):
+                tgt(st.target, '<loop variable of ' + _norm(st.iter) + '>')
+            _effects(st.body, cond + (head,), out)
+            _effects(st.orelse, cond + ('else of ' + head,), out)
+        elif isinstance(st, ast.Try):
+            _effects(st.body, cond + ('try',), out)
+            for h in st.handlers:
+                if h.name:
+                    out.append(('name', h.name, ' and '.join(cond + ('except',)), '<exception>'))
+                _effects(h.body, cond + ('except ' + (_norm(h.type) if h.type is not None else ''),), out)
+            _effects(st.orelse, cond + ('try-else',), out)
+            _effects(st.finalbody, cond + ('finally',), out)
+        elif isinstance(st, ast.With):
+            for it in st.items:
+                if it.optional_vars is not None:
+                    tgt(it.optional_vars, _norm(it.context_expr))
+            _effects(st.body, cond, out)
+        elif isinstance(st, (ast.Expr, ast.Raise, ast.Return, ast.Pass, ast.Assert, ast.Import, ast.ImportFrom, ast.Continue, ast.Break)):
+            for node in ast.walk(st):
+                if isinstance(node, ast.NamedExpr):
+                    tgt(node.target, _norm(node.value))
+        elif isinstance(st, (ast.FunctionDef, ast.ClassDef)):
+            out.append(('name', st.name, ' and '.join(cond) or 'True', '<definition>'))
+        else:
+            raise Unsupported(f'statement {type(st).__name__} in a constructor')
+    return out
+
+
+def _param_names(fn):
+    a = fn.args
+    names = [x.arg for x in a.posonlyargs + a.args + a.kwonlyargs]
+    if a.vararg:
+        names.append(a.vararg.arg)
+    if a.kwarg:
+        names.append(a.kwarg.arg)
+    return names
+
+
+def _flag_fn(body, attr, param, lean_name, doc):
+    """the `if <param>: self.<attr> = A else: self.<attr> = B` statement as a function param -> String"""
+    st = _one(body, lambda s: isinstance(s, ast.If) and _norm(s.test) == param and
+              any(_norm(x).startswith(f'self.{attr} = ') for x in s.body), f'`if {param}:` setting {attr}')
+
+    def val(block):
+        hits = [x for x in block if isinstance(x, ast.Assign) and _norm(x.targets[0]) == f'self.{attr}']
+        if len(hits) != 1 or not (isinstance(hits[0].value, ast.Constant) and isinstance(hits[0].value.value, str)):
+            raise Unsupported(f'_SR.__init__: {attr} is no longer set to a string constant in both branches of `if {param}`')
+        return hits[0].value.value
+    a, b = val(st.body), val(st.orelse)
+    blk = _parse(f'if {param}:\n    return {a!r}\nelse:\n    return {b!r}')
+    return translate_block(blk, lean_name, [(param, 'bool')], {}, doc=doc), st
+
+
+def build_T15i(tree):
+    """sr/sop.py: what the document constructors do with their OPTIONS.
+      Gen.srInitRebound        (class, parameter, condition, value): every place a constructor re-binds one of its own parameters
+      Gen.srInitAttrWrites     (target, condition, value): every attribute store of `_SR.__init__`, in program order
+      Gen.srForwarded          (class, keyword, expression): the keyword arguments of the one `super().__init__(...)` call of the
+                               three public document classes
+      Gen.srOptionNames        the parameters of `_SR.__init__` (without self / **kwargs)
+      Gen.srCompletionFlag / srPreliminaryFlag / srVerificationFlag   option -> stored flag value
+      Gen.srSupportedTransferSyntaxes   the UIDs of `supported_transfer_syntaxes` (names resolved with pydicom.uid)"""
+    texts, shas = [], []
+    rebound_rows, fwd_rows = [], []
+    for cls in ('_SR', 'EnhancedSR', 'ComprehensiveSR', 'Comprehensive3DSR'):
+        fn = find_func(tree, f'{cls}.__init__')
+        body = strip_doc(fn.body)
+        params = _param_names(fn)
+        eff = _effects(body, (), [])
+        for kind, t, c, v in eff:
+            if kind == 'name' and t in params:
+                rebound_rows.append((cls, t, c, v))
+        if cls == '_SR':
+            sr_fn, sr_body, sr_eff, sr_params = fn, body, eff, params
+            continue
+        calls = [n for st in body for n in ast.walk(st) if isinstance(n, ast.Call) and _norm(n.func) == 'super().__init__']
+        if len(calls) != 1:
+            raise Unsupported(f'{cls}.__init__: expected exactly one super().__init__ call, found {len(calls)}')
+        call = calls[0]
+        if call.args:
+            raise Unsupported(f'{cls}.__init__: super().__init__ is called with positional arguments')
+        if body.index(next(st for st in body if call in ast.walk(st))) != 0:
+            raise Unsupported(f'{cls}.__init__: statements run before super().__init__')
+        for kw in call.keywords:
+            fwd_rows.append((cls, kw.arg if kw.arg is not None else '**', _norm(kw.value)))
+        shas.append(_norm(call))
+    q = _lean_str
+    texts.append(lean_table('srInitRebound', 'List (String × String × String × String)',
+                            ['(' + ', '.join(q(x) for x in row) + ')' for row in rebound_rows],
+                            doc='document constructors of sr/sop.py: (class, parameter, path condition, new value) wherever a constructor '
+                                're-binds one of its own parameters'))
+    writes = [(t, c, v) for kind, t, c, v in sr_eff if kind == 'attr']
+    texts.append(lean_table('srInitAttrWrites', 'List (String × String × String)',
+                            ['(' + ', '.join(q(x) for x in row) + ')' for row in writes],
+                            doc='`_SR.__init__`: (target, path condition, value) of every attribute store, in program order'))
+    texts.append(lean_table('srForwarded', 'List (String × String × String)',
+                            ['(' + ', '.join(q(x) for x in row) + ')' for row in fwd_rows],
+                            doc='(class, keyword, expression) of the `super().__init__(...)` call of the three public document classes'))
+    opts = [p for p in sr_params if p not in ('self', 'kwargs')]
+    texts.append(lean_table('srOptionNames', 'List String', [q(x) for x in opts], doc='parameters of `_SR.__init__`'))
+    for attr, param, nm in (('CompletionFlag', 'is_complete', 'srCompletionFlag'), ('PreliminaryFlag', 'is_final', 'srPreliminaryFlag')):
+        t, st = _flag_fn(sr_body, attr, param, nm, f'`_SR.__init__`: {attr} as a function of `{param}`')
+        texts.append(t)
+        shas.append(_norm(st))
+    t, st = _flag_fn(sr_body, 'VerificationFlag', 'is_verified', 'srVerificationFlag',
+                     '`_SR.__init__`: VerificationFlag as a function of `is_verified` (the guards of the verified branch are T15a)')
+    texts.append(t)
+    # supported transfer syntaxes: a set literal of names imported from pydicom.uid
+    ts = _one(sr_body, lambda s: isinstance(s, ast.Assign) and _norm(s.targets[0]) == 'supported_transfer_syntaxes', 'supported_transfer_syntaxes')
+    if not isinstance(ts.value, ast.Set) or not all(isinstance(e, ast.Name) for e in ts.value.elts):
+        raise Unsupported('_SR.__init__: supported_transfer_syntaxes is no longer a set literal of names')
+    import pydicom.uid as _pu
+    uids = []
+    for e in ts.value.elts:
+        if not hasattr(_pu, e.id):
+            raise Unsupported(f'_SR.__init__: transfer syntax name {e.id} is not a pydicom.uid constant')
+        uids.append(str(getattr(_pu, e.id)))
+    g = _one(sr_body, lambda s: isinstance(s, ast.If) and 'supported_transfer_syntaxes' in _norm(s.test), 'transfer syntax guard')
+    if _norm(g.test) != 'transfer_syntax_uid not in supported_transfer_syntaxes' or not isinstance(g.body[0], ast.Raise) or g.orelse:
+        raise Unsupported('_SR.__init__: the transfer syntax guard changed')
+    texts.append(lean_table('srSupportedTransferSyntaxes', 'List String', [q(u) for u in uids],
+                            doc='`_SR.__init__`: transfer syntaxes accepted (anything else: ValueError)'))
+    # the institution block: department only together with an institution
+    inst = _one(sr_body, lambda s: isinstance(s, ast.If) and _norm(s.test) == 'institution_name is not None', '`if institution_name is not None`')
+    blk = _parse('if institution_name is not None:\n    if institutional_department_name is not None:\n        return (True, True)\n'
+                 '    return (True, False)\nreturn (False, False)')
+    want = ['self.InstitutionName = institution_name',
+            'if institutional_department_name is not None: self.InstitutionalDepartmentName = institutional_department_name']
+    if [' '.join(_norm(x).split()) for x in inst.body] != want or inst.orelse:
+        raise Unsupported('_SR.__init__: the institution block no longer only stores InstitutionName / InstitutionalDepartmentName')
+
+    class R(ast.NodeTransformer):
+        def visit_Compare(self, node):
+            txt = _norm(node)
+            if txt == 'institution_name is not None':
+                return ast.Name(id='has_institution', ctx=ast.Load())
+            if txt == 'institutional_department_name is not None':
+                return ast.Name(id='has_department', ctx=ast.Load())
+            return node
+    blk = [ast.fix_missing_locations(R().visit(x)) for x in blk]
+    texts.append(translate_block(blk, 'srInstitutionStored', [('has_institution', 'bool'), ('has_department', 'bool')], {},
+                                 doc='`_SR.__init__`: (InstitutionName stored, InstitutionalDepartmentName stored)'))
+    shas.append(_norm(inst))
+    shas.append(repr(rebound_rows) + repr(writes))
+    return '\n\n'.join(texts), hashlib.sha256(''.join(shas).encode()).hexdigest()
+
+
 TARGETS = {'T15a': {'file': 'sr/sop.py', 'build': build_T15a},
            'T15e': {'file': 'sr/enum.py', 'build': build_T15e},
            'T15d': {'file': 'sr/sop.py', 'build': build_T15d},
@@ -687,4 +875,5 @@ TARGETS = {'T15a': {'file': 'sr/sop.py', 'build': build_T15a},
            'T15b': {'file': 'sr/utils.py', 'build': build_T15b},
            'T15f': {'file': 'sr/content.py', 'build': build_T15f},
            'T15g': {'file': 'sr/content.py', 'build': build_T15g},
-           'T15h': {'file': 'sr/sop.py', 'build': build_T15h}}
+           'T15h': {'file': 'sr/sop.py', 'build': build_T15h},
+           'T15i': {'file': 'sr/sop.py', 'build': build_T15i}}
